@@ -180,7 +180,7 @@ pub fn run(ctx: &Ctx) -> (Outcome, String, Option<bool>) {
     let o = run_sharded(
         ctx,
         "sampled-distributions",
-        ctx.scale(250, 4000),
+        ctx.scale(4000, 40000),
         || {
             (
                 proptest::collection::vec((0u8..5, prop_oneof![Just(1u64), Just(2), Just(3), Just(5), Just(10), 1u64..1000], 0u64..2, 0u64..4), 1..7),
